@@ -100,6 +100,39 @@ def _check_props_file(src, timeout=900):
                 log=(out + p.stderr)[-6000:], cmd=" ".join(cmd), rc=p.returncode)
 
 
+def coqchk_props(pid, timeout=3000):
+    """Thorough tier: re-check the compiled Props/<pid>*.vo and everything they depend on with the independent
+    checker coqchk, and report the axioms it lists (`-o`).  The verdict is cached under build/ keyed by the
+    hash of every .vo of the development, so one tree is checked once per property.
+    Returns dict(ok, axioms=[...], modules=[...], log, cached, cmd, wall_s)."""
+    import glob
+    mods = ["HV.Props." + os.path.basename(f)[:-2]
+            for f in sorted(glob.glob(os.path.join(COQ, "theories", "Props", pid + "*.v")))]
+    h = hashlib.sha256()
+    for f in sorted(glob.glob(os.path.join(COQ, "theories", "**", "*.vo"), recursive=True)):
+        h.update(f.encode()); h.update(open(f, "rb").read())
+    key = h.hexdigest()[:20]
+    cache = os.path.join(BUILD, "coqchk-%s-%s.json" % (pid, key))
+    if os.path.exists(cache):
+        r = json.load(open(cache)); r["cached"] = True
+        return r
+    cmd = ["coqchk", "-silent", "-o", "-Q", "theories", "HV"] + mods
+    t0 = time.time()
+    with _Lock("coqchk-" + pid):      # reads .vo only; does not block coqc/make of other checks
+        p = sh(cmd, cwd=COQ, timeout=timeout)
+    out = p.stdout + p.stderr
+    m = re.search(r"\* Axioms:(.*?)\n\s*\n\* Constants/Inductives relying on type-in-type:(.*?)\n\s*\n\* Constants/Inductives relying on unsafe \(co\)fixpoints:(.*?)\n\s*\n\* Inductives whose positivity is assumed:(.*?)\n", out, re.S)
+    fields = [x.strip() for x in m.groups()] if m else None
+    axioms = [] if (fields and fields[0] == "<none>") else ([l.strip() for l in fields[0].splitlines() if l.strip()] if fields else ["<unparsed>"])
+    ok = (p.returncode == 0 and fields is not None and fields[1:] == ["<none>"] * 3
+          and all(a in ALLOWED_AXIOMS for a in axioms))
+    r = dict(ok=ok, axioms=axioms, modules=mods, log=out[-3000:], cached=False, cmd=" ".join(cmd),
+             wall_s=round(time.time() - t0, 1))
+    if ok:
+        json.dump(r, open(cache, "w"))
+    return r
+
+
 def coq_eval(vtext, name, timeout=1800):
     """Compile a generated .v file (in a scratch dir) and return coqc's stdout."""
     d = scratch()
